@@ -722,7 +722,10 @@ FAMILIES["C06"] = Multi(HistFamily(nlists=16, nhist=8, allow_overlap=True), Spec
                         ElemFamily(nlists=6, nscripts=14, select=lambda L: any(lay.ntc(p) or lay.ntd(p) for p in L)))
 # "no operation READS or writes outside the memory": the comparison operators on memcmp-able
 # lists (whole-buffer and run-wise fast paths), blocks flush against inaccessible pages (seed C02h)
+# copy / move / assignment / swap under every allocator trait combination stay inside the block too
+# (seed C02n: element-wise move assignment keeps a block that only fits the elements moved)
 FAMILIES["C02"] = Multi(HistFamily(strict_block=False, nhist=6, nfill=16), SweepFamily(), EmplaceAtFamily(),
+                        SpecialFamily(nlists=6, nscripts=6),
                         CompareFamily(nlists=4, nscripts=10, select=lambda L: all(p.ty in (lay.TUINT, lay.TSINT, lay.TU8, lay.TS8, lay.TBYTE) for p in L)))
 FAMILIES["C13"] = Multi(CompareFamily(), SweepFamily(nunits=2))
 FAMILIES["C14"] = Multi(CompareFamily(), SweepFamily(nunits=2))
